@@ -178,7 +178,7 @@ def one_history(acc, seed, tag, batch=None):
                 elif ev == "ask-keys-error":
                     W.server.upload_reply_error.add(A)
                     acc.count("error_replies")
-                W.server.ask_for_keys(A, r.randint(0, 5))
+                W.server.ask_for_keys(A, r.choice([0, 1, 5, 9, 10, 11, 100, 811, 812, r.randint(0, 2000)]))
                 run_actions([])
                 if ev == "ask-keys-lost-reply":
                     W.server.hold_upload_reply.discard(A)
@@ -195,7 +195,7 @@ def one_history(acc, seed, tag, batch=None):
                 W.server.delay_upload_reply.add(A)
                 k = r.choice([2, 2, 3])
                 for _ in range(k):
-                    W.server.ask_for_keys(A, r.randint(0, 5))
+                    W.server.ask_for_keys(A, r.choice([0, 1, 5, 9, 10, 11, 100, 811, 812, r.randint(0, 2000)]))
                     run_actions([])
                 W.server.delay_upload_reply.discard(A)
                 held = len(W.server.delayed_results.get(A, []))
